@@ -236,6 +236,42 @@ func Eq(a, b V) bool { return eq(a, b, false) }
 // a list and a vector with pairwise equal elements are equal.
 func EqLisp(a, b V) bool { return eq(a, b, true) }
 
+// EqExact is Eq for comparing two results of the implementation with each other: a Go error
+// object only equals a Go error object of the same Go type (Eq lets it match a string, because
+// the definition does not say which of the two a failing builtin delivers).
+func EqExact(a, b V) bool {
+	if a.K == GoErr || b.K == GoErr {
+		return a.K == b.K && a.S == b.S
+	}
+	if a.K != b.K {
+		return false
+	}
+	switch a.K {
+	case List, Vec:
+		if len(a.L) != len(b.L) {
+			return false
+		}
+		for i := range a.L {
+			if !EqExact(a.L[i], b.L[i]) {
+				return false
+			}
+		}
+		return true
+	case Map:
+		if len(a.M) != len(b.M) {
+			return false
+		}
+		for k, x := range a.M {
+			y, ok := b.M[k]
+			if !ok || !EqExact(x, y) {
+				return false
+			}
+		}
+		return true
+	}
+	return Eq(a, b)
+}
+
 func eq(a, b V, seqLoose bool) bool {
 	ak, bk := a.K, b.K
 	if seqLoose {
